@@ -1539,6 +1539,19 @@ func ruleTrackCount(c *Ctx) {
 				problem = fmt.Sprintf("some iterations skip SMF.Add (between %d and %d calls per track): the file has fewer track chunks than --track asked for", mn, mx)
 			}
 		}
+		// a fresh event list per track: the smf.Track filled by Apply and handed to Add is declared inside the loop
+		// (SMF.Add keeps the slice; one buffer reused with t = t[:0] is overwritten by the next track)
+		if l != nil && problem == "" {
+			fresh := false
+			if ld, ok := addCall.Call.Args[1].(*ssa.UnOp); ok && ld.Op == token.MUL {
+				if al, ok := ld.X.(*ssa.Alloc); ok && l.blocks[al.Block()] {
+					fresh = true
+				}
+			}
+			if !fresh {
+				problem = "the smf.Track handed to SMF.Add is not a fresh variable of the loop body: the same backing array is reused and earlier tracks are overwritten by later ones"
+			}
+		}
 		// error of Add returned (through every helper level)
 		if !c.errorReturnedUp(*addRC) {
 			problem = "the error of SMF.Add is ignored (a track that cannot be added is silently dropped)"
